@@ -23,6 +23,7 @@ import CnfgenModel.Trans.Subst
 import CnfgenModel.Trans.Header
 namespace Cnfgen
 namespace Heap
+local notation "Addr" => Nat
 
 /-- one statement executed on the result formula `newF` -/
 inductive Act where
